@@ -422,3 +422,50 @@ def iteraddfields(h):
         ctx.oblige('iteraddfields: header = source header with both names inserted the same way; nothing after the last row',
                    z3.And(pre.len == 1, o.len == hdr.len + 2, res.out.len == 0, z3.ForAll([q], z3.Implies(z3.And(0 <= q, q < o.len), z3.Select(o.arr, q) == f(q)))))
     h.explore(body)
+
+
+# ------------------------------------------------------------------------------------------------ addcolumn
+@vc('C12.iteraddcolumn', functions=[B + 'iteraddcolumn'], props=['C12', 'C03', 'C20'],
+    assumptions=['T2: zip_longest(rows, col) runs max(len) steps, the shorter input reads as `missing`', 'no data row is == `missing`',
+                 'stateless-body rule (engine meta-theorem)'])
+def iteraddcolumn(h):
+    for noindex in (True, False):
+        def body(ctx, noindex=noindex):
+            def delta(ls, x, dout):
+                j = ls.k.t - 1                              # 0-based step: table position k (header at 0) <-> column position k - 1
+                hdr = src_row(S, 0)
+                val = z3.If(j < col.len, z3.Select(col.arr, j), missing.t)
+                o = out_row(dout, 0)
+                idx = hdr.len if noindex else index.t
+                q = smt.fresh_int('q')
+                have = ls.k.t < S.n
+                row = src_row(S, ls.k.t)
+                pos_r = clamp_ins(idx, row.len)
+                pos_m = clamp_ins(idx, hdr.len)
+                pad = z3.And(o.len == hdr.len + 1,
+                             z3.ForAll([q], z3.Implies(z3.And(0 <= q, q < o.len), z3.Select(o.arr, q) == z3.If(q == pos_m, val, missing.t))))
+                ctx.oblige('iteraddcolumn: step j yields one row: data row j (a row of `missing` once the table has run out) with column value j '
+                           '(`missing` once the column has run out) inserted at the index -- by default at the position of the new field, '
+                           'len(header) -- and every other cell carried over in order',
+                           z3.And(dout.len == 1, z3.If(have, insert_spec(o, row, pos_r, val), pad)))
+            it = h.interp(ctx, loops={(B + 'iteraddcolumn', 0): LoopSpec(delta=delta, label='rows x column')})
+            it.check_pulls = False
+            S = sym_table(ctx, 'S', nmin=1)
+            rows_are_sequences(ctx, S)
+            col = sym_seq(ctx, 'col')
+            field, missing = sym_cell('field'), sym_cell('missing')
+            index = None if noindex else sym_int('index')
+            r = smt.fresh_int('r')
+            ctx.facts.append(z3.ForAll([r], z3.Implies(z3.And(1 <= r, r < S.n), z3.Not(smt.py_eq(z3.Select(S.rows, r), missing.t)))))
+            ctx.facts.append(smt.py_eq(missing.t, missing.t))
+            res = run_generator(it, closure_of(it, B + 'iteraddcolumn'), [S, field, col, index, missing])
+            if res.exc is not None:
+                ctx.oblige('iteraddcolumn: never raises', z3.BoolVal(False), res.exc.origin or '')
+                return
+            if getattr(ctx, 'after_loop', None):
+                pre = ctx.pre_loop_out
+                hdr = src_row(S, 0)
+                pos = hdr.len if noindex else clamp_ins(index.t, hdr.len)
+                ctx.oblige('iteraddcolumn: header = source header with the new field inserted at the index (default: appended); nothing after the last row',
+                           z3.And(pre.len == 1, insert_spec(out_row(pre, 0), hdr, pos, field.t), res.out.len == 0))
+        h.explore(body)
